@@ -42,7 +42,9 @@ def sys_jobs(hs, tier):
           # growth (4th statement), shrink request, more statements: nothing lost or reordered across the node switches
           wmmlib.sys_job(hs, "sys", 0, 2, "l1,l2,l3,l4,k64,l5"),
           # a thread logs, exits and is joined; the joiner's flush_log() returns only after that thread's context was reclaimed
-          wmmlib.sys_job(hs, "sys", 0, 1, "j0,f0", "l1,x0")]
+          wmmlib.sys_job(hs, "sys", 0, 1, "j0,f0", "l1,x0"),
+          # a thread exits (its context is looked up and erased by the backend) while another one registers (the list grows)
+          wmmlib.sys_job(hs, "sys", 1, 1, "r,x0", "r")]
     if not q:
         sj += [wmmlib.sys_job(hs, "sys", 0, 3, "r,l1,l2,l3,x", deadline=1500), wmmlib.sys_job(hs, "sys", 0, 3, "l1,x,l2,x", deadline=1500),
                wmmlib.sys_job(hs, "sys", 1, 1, "l1,x", "l1,x", deadline=1500), wmmlib.sys_job(hs, "sys", 1, 2, "l1,x", "l1,x", deadline=1500),
